@@ -21,15 +21,15 @@ import (
 
 // Cfg is a JSON-serialisable option configuration.
 type Cfg struct {
-	V1        bool   `json:"v1,omitempty"`        // WriteAsCarV1
-	DataPad   uint64 `json:"dpad,omitempty"`      // UseDataPadding
-	IndexPad  uint64 `json:"ipad,omitempty"`      // UseIndexPadding
-	Sorted    bool   `json:"sorted,omitempty"`    // UseIndexCodec(CarIndexSorted) instead of the default multihash-sorted
-	WholeCID  bool   `json:"whole,omitempty"`     // UseWholeCIDs
-	AllowDup  bool   `json:"dup,omitempty"`       // AllowDuplicatePuts
-	StoreID   bool   `json:"id,omitempty"`        // StoreIdentityCIDs
-	MaxCid    uint64 `json:"maxcid,omitempty"`    // MaxIndexCidSize
-	ZeroEOF   bool   `json:"zeroeof,omitempty"`   // ZeroLengthSectionAsEOF
+	V1       bool   `json:"v1,omitempty"`      // WriteAsCarV1
+	DataPad  uint64 `json:"dpad,omitempty"`    // UseDataPadding
+	IndexPad uint64 `json:"ipad,omitempty"`    // UseIndexPadding
+	Sorted   bool   `json:"sorted,omitempty"`  // UseIndexCodec(CarIndexSorted) instead of the default multihash-sorted
+	WholeCID bool   `json:"whole,omitempty"`   // UseWholeCIDs
+	AllowDup bool   `json:"dup,omitempty"`     // AllowDuplicatePuts
+	StoreID  bool   `json:"id,omitempty"`      // StoreIdentityCIDs
+	MaxCid   uint64 `json:"maxcid,omitempty"`  // MaxIndexCidSize
+	ZeroEOF  bool   `json:"zeroeof,omitempty"` // ZeroLengthSectionAsEOF
 }
 
 func (c Cfg) String() string {
